@@ -486,6 +486,12 @@ class Executor:
                 return [(st, ('ret', NONE))]
             return [(s, ('exc', r.exc) if isinstance(r, Raise) else ('ret', r)) for s, r in self.ev(node.value, st)]
         if t is ast.If:
+            if getattr(self.ctx, 'abstract_untracked_ifs', False) and not self.contains_tracked(node) \
+                    and not any(isinstance(n, (ast.Return, ast.Raise, ast.Break, ast.Continue, ast.Yield, ast.With,
+                                               ast.Try)) for n in ast.walk(node)):
+                # structural mode: an `if` that touches nothing the contract tracks is abstracted to a havoc
+                self.ctx.unsupported_notes.append(f'line {node.lineno}: untracked if-statement abstracted')
+                return self.havoc_stmt(node, st)
             outs = []
             for s, c in self.ev_cond(node.test, st):
                 if isinstance(c, Raise):
@@ -1266,6 +1272,27 @@ class Executor:
             return models.dict_comprehension(self, st, node)
         if t is ast.Await:
             return self.ev(node.value, st)
+        if t is ast.Yield:
+            # @contextmanager generator: the `with` body of the caller runs here - an abstract callee that may change
+            # the heap arbitrarily and may raise anything (the exception is thrown into the generator at the yield)
+            if not getattr(self.ctx, 'allow_yield', False):
+                raise Unsupported('yield')
+            outs = []
+            vouts = self.ev(node.value, st) if node.value is not None else [(st, NONE)]
+            for s, v in vouts:
+                if isinstance(v, Raise):
+                    outs.append((s, v))
+                    continue
+                hooks = self.ctx.hooks
+                if hooks is not None and hasattr(hooks, 'on_yield'):
+                    r = hooks.on_yield(self, s, v, node)
+                    if r is not None:
+                        outs.extend(r)
+                        continue
+                s.havoc_heap()
+                outs.append((s.fork(), Raise(self.mk_exc('*', 'with-body'))))
+                outs.append((s, NONE))
+            return outs
         if t is ast.Starred:
             raise Unsupported('starred expression')
         if t is ast.NamedExpr:
@@ -1879,7 +1906,8 @@ class Executor:
                for d in decs):
             if not all(d.startswith('dataclass') for d in decs):
                 raise Unsupported(f'decorator {decs} on {fn.name}')
-        if any(isinstance(n, (ast.Yield, ast.YieldFrom)) for n in ast.walk(fn)):
+        if any(isinstance(n, (ast.Yield, ast.YieldFrom)) for n in ast.walk(fn)) \
+                and not getattr(self.ctx, 'allow_yield', False):
             raise Unsupported(f'generator function {fn.name}')
         self.ctx.inlined.add(fv.qual)
         local = self.bind_args(fn, fv.self_v, args, dict(kwargs), st, fv.mod, node)
